@@ -51,6 +51,7 @@ import pox.topology.topology as topomod           # noqa: E402
 import pox.openflow.discovery as discmod          # noqa: E402
 import pox.openflow.topology as oftopo            # noqa: E402
 import pox.lib.recoco.recoco as recoco            # noqa: E402
+import pox.openflow.libopenflow_01 as oflib       # noqa: E402
 
 poxenv.install_clock(of_01, swmod, ftmod, oftopo)
 
@@ -178,6 +179,10 @@ class Env(object):
       core.scheduler._ready.clear()
     except Exception:
       pass
+    # automatic transaction ids are process-global (libopenflow_01.generate_xid, 1, 2, 3 ...); a worker process
+    # replays thousands of behaviours, and the counter would walk into the range of the per-switch generator
+    # ((dpid & 0x7fff) << 16) + 1 ... (see notes/X02.md, D9): every behaviour starts from a fresh counter
+    oflib.generate_xid = oflib.xid_generator()
     # entity ids are process-global in pox.topology
     topomod.Entity._all_ids.clear()
     topomod.Entity._tb.clear()
